@@ -72,10 +72,10 @@ Section Pipeline.
          LZ4F_header p ++ concat (map (mt_chunk p dict cs) (List.seq 0%nat (length cs))) ++ mt_tail p content.
 
   (* the same file as assembled at run time: the writer thread receives (rank, bytes) in completion
-     order; [wr] is the write register (LZ4IO_checkWriteOrder) *)
-  Definition mt_assembled (wr : list (nat * list Z) -> list Z) (p : lz4f_prefs) (dict content : list Z)
-             (arrivals : list (nat * list Z)) : list Z :=
-    LZ4F_header p ++ wr arrivals ++ mt_tail p content.
+     order; [wr] = the buffers LZ4IO_checkWriteOrder (write register) hands to fwrite, in order *)
+  Definition mt_assembled (wr : list (Z * list Z) -> list (list Z)) (p : lz4f_prefs) (content : list Z)
+             (arrivals : list (Z * list Z)) : list Z :=
+    LZ4F_header p ++ concat (wr arrivals) ++ mt_tail p content.
 
   (* ---- LZ4IO_compressLegacy_internal ---- *)
   Definition legacy_block (level : Z) (c : list Z) : list Z :=
